@@ -55,6 +55,21 @@ Definition reply_ok (q : rpc) (y : reply) : Prop :=
   | _ => True
   end.
 
+(* a call awaited by the wait_payment that pay() falls back to *)
+Definition pay_wait_call (s : sys) (k : nat) : Prop :=
+  exists i x a g w, nth_error (lcs (pl s)) i = Some x /\ l_pc x = PWait (AfterPay a g) w /\ In k (awaits (l_pc x)).
+
+(* Two levels of the environment hypothesis:
+     strict = true : no injected error on ANY read rpc (needed for C02, C06);
+     strict = false: no injected error on the reads of the wait_payment inside pay() — the only place where a read error
+                     breaks write-ahead (KF-B); errors on listdatastore and on the restart path's wait_payment are allowed
+                     (they make the plugin fail HTLCs or panic, KF-C / KF-A, but never touch the record wrongly). *)
+Section Strict.
+Variable strict : bool.
+
+Definition typed_reply (s : sys) (k : nat) (q : rpc) (y : reply) : Prop :=
+  if strict then reply_ok q y else (pay_wait_call s k -> reply_ok q y).
+
 Record NInv (s : sys) : Prop := {
   ni_lc : forall i x, nth_error (lcs (pl s)) i = Some x -> lc_ok (nd s) (calls s) (l_pc x);
   ni_pay : payrun (nd s) <> 0 -> exists i x k a g, nth_error (lcs (pl s)) i = Some x /\ l_pc x = PPay k a g /\ st_of (calls s) k = Some Running;
@@ -64,13 +79,14 @@ Record NInv (s : sys) : Prop := {
             l_pc x = PAdd1 k a am mf md -> st_of (calls s) k = Some (Replied (YGen g)) -> det_tok (l_pc y) = Some g0 -> g0 < g;
   ni_wa : busy (nd s) \/ payrun (nd s) <> 0 -> hot (nd s);
   ni_ng : forall g, ds (nd s) <> Some (DGarbage, g);
-  ni_r : forall k cl y, nth_error (calls s) k = Some cl -> c_st cl = Replied y -> reply_ok (c_rpc cl) y
+  ni_r : forall k cl y, nth_error (calls s) k = Some cl -> c_st cl = Replied y -> typed_reply s k (c_rpc cl) y
 }.
 
 (* the environment contract on one event, in the state it is applied to *)
 Definition ev_wf (s : sys) (ev : event) : Prop :=
   match ev with
-  | EvProcess cid f => f = NoFault \/ forall cl, nth_error (calls s) cid = Some cl -> is_read (c_rpc cl) = false
+  | EvProcess cid f =>
+      f = NoFault \/ forall cl, nth_error (calls s) cid = Some cl -> is_read (c_rpc cl) = false \/ (strict = false /\ ~ pay_wait_call s cid)
   | EvPayFinish _ (PayComplete p) => has_done p (parts (nd s))     (* N1 *)
   | EvPayFinish _ PayFailed => all_failed (parts (nd s))           (* N2 *)
   | _ => True
@@ -264,6 +280,10 @@ Definition prov_det (old new : pc) : Prop :=
   forall g0, det_tok new = Some g0 -> det_tok old = Some g0 \/ att_tok old = Some g0.
 Definition fresh_add1 (cs : list call) (new : pc) : Prop :=
   forall k a am mf md, new = PAdd1 k a am mf md -> (length cs <= k)%nat.
+(* a call that pay()'s wait_payment awaits was issued by that same wait *)
+Definition prov_wait (cs : list call) (old new : pc) : Prop :=
+  forall a g w k, new = PWait (AfterPay a g) w -> In k (awaits new) -> (k < length cs)%nat ->
+    exists w0, old = PWait (AfterPay a g) w0 /\ In k (awaits old).
 
 Lemma NInv_apply c s i a x cid :
   InvU s -> InvC c s -> InvO s -> NInv s ->
@@ -273,9 +293,10 @@ Lemma NInv_apply c s i a x cid :
   (forall k, In k (a_cancel a) -> In k (awaits (l_pc x)) /\ k <> cid) ->
   lc_ok (nd s) (cancel_calls (a_cancel a) (set_status cid Delivered (calls s)) ++ mk_calls (a_new a)) (a_pc a) ->
   prov_att (calls s) (l_pc x) (a_pc a) -> prov_det (l_pc x) (a_pc a) -> fresh_add1 (calls s) (a_pc a) ->
+  prov_wait (calls s) (l_pc x) (a_pc a) ->
   NInv (fst (apply_adv (with_calls s (set_status cid Delivered (calls s))) i a)).
 Proof.
-  intros HU HC HO HN Hx Hcid Hcn Hnew Hpa Hpd Hfr.
+  intros HU HC HO HN Hx Hcid Hcn Hnew Hpa Hpd Hfr Hpw.
   destruct (apply_adv_lcs (with_calls s (set_status cid Delivered (calls s))) i a x Hx) as (Hl & _ & Hnd & _ & _ & Hcalls & _).
   cbn [with_calls calls pl lcs nd] in Hl, Hcalls, Hnd.
   set (s' := fst (apply_adv (with_calls s (set_status cid Delivered (calls s))) i a)) in *.
@@ -339,7 +360,14 @@ Proof.
       destruct (nth_set_status _ _ _ _ _ H1) as (cl0 & H0 & Hr0 & Hne & Heq).
       destruct Hst1 as [E|E]; [|congruence].
       destruct (Nat.eq_dec k cid) as [->|Hkc]; [rewrite (Heq eq_refl) in E; congruence|].
-      rewrite (Hne Hkc) in *. rewrite Hr1. apply (ni_r s HN k cl0 y H0). congruence.
+      rewrite (Hne Hkc) in *. rewrite Hr1.
+      assert (Hold : typed_reply s k (c_rpc cl0) y) by (apply (ni_r s HN k cl0 y H0); congruence).
+      unfold typed_reply in *. destruct strict; [exact Hold|].
+      intros (j & z & a0 & g0 & w & Hz & Hp & Hin). apply Hold.
+      destruct (Lcs j z Hz) as [(-> & ->)|(Hnj & Hz')].
+      * cbn [set_pc l_pc] in Hp, Hin. destruct (Hpw a0 g0 w k Hp ltac:(rewrite Hp in Hin; rewrite Hp; exact Hin) Hlt) as (w0 & Hold0 & Hin0).
+        exists i, x, a0, g0, w0. rewrite Hold0 in *. auto.
+      * exists j, z, a0, g0, w. auto.
     + rewrite nth_error_app2 in Hk by (rewrite table_length; exact Hge). destruct (nth_mk_calls _ _ _ Hk) as (q & _ & ->). discriminate.
 Qed.
 
@@ -413,12 +441,13 @@ Definition shape_goal (n : node) (cs : list call) (cid : nat) (old : pc) (sh : l
   match sh with
   | LKeep p' new _ cn | LResolve _ p' new cn =>
       lc_ok n (cancel_calls cn (set_status cid Delivered cs) ++ mk_calls new) p' /\
-      prov_att cs old p' /\ prov_det old p' /\ (forall k a am mf md, p' <> PAdd1 k a am mf md)
+      prov_att cs old p' /\ prov_det old p' /\ (forall k a am mf md, p' <> PAdd1 k a am mf md) /\ prov_wait cs old p'
   | LSelect _ => all_failed (parts n)
   end.
 
+Ltac fin4 := split; [intros; discriminate|intros ? ? ? ? HH; discriminate HH].
 Ltac triv_target :=
-  split; [exact I|split; [intros ? HH; discriminate HH|split; [intros ? HH; discriminate HH|intros; discriminate]]].
+  split; [exact I|split; [intros ? HH; discriminate HH|split; [intros ? HH; discriminate HH|fin4]]].
 
 Lemma shape_node_ok c s i x cid cl y sh :
   InvU s -> InvC c s -> InvO s -> NInv s ->
@@ -429,6 +458,10 @@ Proof.
   intros HU HC HO HN Hx Hcl Hrep Hsh.
   assert (Hst : st_of (calls s) cid = Some (Replied y)) by (rewrite (st_of_nth _ _ _ Hcl), Hrep; reflexivity).
   pose proof (ni_lc s HN i x Hx) as Hlc. pose proof (ic_typed c s HC i x Hx) as Hty. pose proof (ni_r s HN cid cl y Hcl Hrep) as Hry.
+  assert (Hcin : In cid (awaits (l_pc x))).
+  { assert (E : lc_deliver c (l_info x) (length (calls s)) (height s) (now s) (l_pc x) cid y true (entry_ (pl s)) (next_att (pl s)) <> None) by (rewrite lc_deliver_shape, Hsh; discriminate).
+    destruct (lc_deliver c (l_info x) (length (calls s)) (height s) (now s) (l_pc x) cid y true (entry_ (pl s)) (next_att (pl s))) eqn:E2; [|congruence].
+    exact (lc_deliver_awaits _ _ _ _ _ _ _ _ _ _ _ _ E2). }
   assert (NP : attached (l_pc x) = true -> (forall k a g, l_pc x <> PPay k a g) -> payrun (nd s) = 0)
     by (intros Ax Hnp; exact (proj1 (not_paying c s i x HU HC HO HN Hx Ax Hnp))).
   assert (NN : forall w, attached (l_pc x) = true -> (forall k a g, l_pc x <> PPay k a g) -> no_new (wproj (nd s) (calls s) w))
@@ -437,13 +470,10 @@ Proof.
     unfold lc_shape in Hsh; try discriminate;
     try (destruct (Nat.eqb k1 cid) eqn:E; cbn [negb] in Hsh; [apply Nat.eqb_eq in E; subst k1|discriminate]);
     cbn [lc_ok pc_calls_ok] in Hlc, Hty.
-  - (* PFetch *)
-    rewrite (has_call_rpc _ _ _ _ Hty Hcl) in Hry. destruct Hry as (v & -> & Hng).
-    destruct v as [[[|a t|pr|] g]|]; inversion Hsh; subst sh; cbn [shape_goal].
+  - (* PFetch: any reply — typed, an injected error, an unparsable record *)
+    destruct y as [[[[|a t|pr|] g]|]| | | | | | | |]; inversion Hsh; subst sh; cbn [shape_goal]; try triv_target.
     + exact (Hlc _ Hst I).
-    + split; [split; [apply wait_start_ok|exact I]|]. split; [intros ? HH; discriminate HH|]. split; [intros ? HH; discriminate HH|intros; discriminate].
-    + triv_target.
-    + exfalso. exact (Hng g eq_refl).
+    + split; [split; [apply wait_start_ok|exact I]|]. split; [intros ? HH; discriminate HH|]. split; [intros ? HH; discriminate HH|fin4].
     + exact (Hlc _ Hst I).
   - (* PWait *)
     destruct Hlc as (Hw & Htok).
@@ -455,25 +485,32 @@ Proof.
     destruct (wait_deliver (length (calls s)) w cid y) as [[w' nw|r cn0]|] eqn:Ew; [| |discriminate].
     + inversion Hsh; subst sh. cbn [shape_goal]. unfold PInv in HP. cbn [ps_st] in HP. destruct HP as (_ & HW).
       split; [split; [cbn [cancel_calls fold_left]; exact HW|exact Htok]|].
-      split; [intros g0 Hg0; left; destruct kk; exact Hg0|]. split; [intros ? HH; discriminate HH|intros; discriminate].
+      split; [intros g0 Hg0; left; destruct kk; exact Hg0|]. split; [intros ? HH; discriminate HH|].
+      split; [intros; discriminate|]. intros a0 g0 w0 k0 HH Hin0 Hlt0. inversion HH; subst kk w0. exists w. split; [reflexivity|].
+      destruct (wait_deliver_awaits _ _ _ _ _ _ Ew (AfterPay a0 g0) k0 Hin0) as [Hge|(A & _)]; [lia|exact A].
     + destruct r as [pr| |].
       * inversion Hsh; subst sh. unfold shape_succeed. cbn [shape_goal]. triv_target.
       * unfold PInv in HP. cbn [ps_st res_of_wait] in HP. destruct HP as (_ & Haf). cbn [ps_nd] in Haf.
         destruct kk as [a g t|a g]; inversion Hsh; subst sh; unfold shape_pay_failed; cbn [shape_goal lc_ok].
-        -- split; [exact Haf|]. split; [intros ? HH; discriminate HH|]. split; [intros ? HH; discriminate HH|intros; discriminate].
+        -- split; [exact Haf|]. split; [intros ? HH; discriminate HH|]. split; [intros ? HH; discriminate HH|fin4].
         -- split; [split; [exact Htok|intros _; split; [exact Haf|exact (proj1 Hnn)]]|].
-           split; [intros ? HH; discriminate HH|]. split; [intros g0 Hg0; right; exact Hg0|intros; discriminate].
-      * exfalso. exact (wait_no_err c (l_info x) (calls s) kk _ w cid y cl cn0 Hty Hcl Hry Ew).
+           split; [intros ? HH; discriminate HH|]. split; [intros g0 Hg0; right; exact Hg0|fin4].
+      * (* an error inside the wait: on the restart path the lifecycle panics (KF-A) and touches nothing; inside pay() it cannot happen *)
+        destruct kk as [a g t|a g]; inversion Hsh; subst sh.
+        -- cbn [shape_goal]. triv_target.
+        -- exfalso. assert (Hry' : reply_ok (c_rpc cl) y).
+           { unfold typed_reply in Hry. destruct strict; [exact Hry|]. apply Hry. exists i, x, a, g, w. rewrite Hp. auto. }
+           exact (wait_no_err c (l_info x) (calls s) (AfterPay a g) _ w cid y cl cn0 Hty Hcl Hry' Ew).
   - (* PMarkF1 *)
     destruct y; inversion Hsh; subst sh; cbn [shape_goal]; try triv_target.
-    split; [exact Hlc|]. split; [intros ? HH; discriminate HH|]. split; [intros ? HH; discriminate HH|intros; discriminate].
+    split; [exact Hlc|]. split; [intros ? HH; discriminate HH|]. split; [intros ? HH; discriminate HH|fin4].
   - (* PMarkF2 *)
     destruct y; inversion Hsh; subst sh; cbn [shape_goal]; try triv_target. exact Hlc.
   - (* PAdd1 *)
     destruct Hlc as (Haf & Hg).
     destruct y; inversion Hsh; subst sh; cbn [shape_goal]; try triv_target.
     destruct (Hg _ Hst) as (T & H). split; [cbn [lc_ok]; auto|].
-    split; [intros g1 Hg1; cbn in Hg1; inversion Hg1; subst g1; right; eauto 10|]. split; [intros ? HH; discriminate HH|intros; discriminate].
+    split; [intros g1 Hg1; cbn in Hg1; inversion Hg1; subst g1; right; eauto 10|]. split; [intros ? HH; discriminate HH|fin4].
   - (* PAdd2 *)
     destruct Hlc as (Haf & Hh & Ht).
     destruct y; inversion Hsh; subst sh; cbn [shape_goal]; try triv_target.
@@ -481,7 +518,7 @@ Proof.
     + cbn [lc_ok cancel_calls fold_left]. split; [exact Ht|].
       rewrite <- (set_status_length cid Delivered (calls s)). rewrite st_of_new0. split; [split; [exact Haf|]|exact Hh].
       apply NP; [reflexivity|intros; discriminate].
-    + split; [intros g1 Hg1; left; exact Hg1|]. split; [intros ? HH; discriminate HH|intros; discriminate].
+    + split; [intros g1 Hg1; left; exact Hg1|]. split; [intros ? HH; discriminate HH|fin4].
   - (* PPay *)
     destruct Hlc as (Ht & Hm). rewrite Hst in Hm. destruct Hm as (Hp0 & Hy).
     destruct (pay_reply y) as [pr| |] eqn:Epr; inversion Hsh; subst sh.
@@ -489,20 +526,31 @@ Proof.
     + assert (y = YPay PayFailed) by (destruct y as [| | | | | | |[]|]; try discriminate; reflexivity). subst y.
       unfold shape_pay_failed. cbn [shape_goal lc_ok].
       split; [split; [exact Ht|intros _; split; [exact Hy|exact Hp0]]|].
-      split; [intros ? HH; discriminate HH|]. split; [intros g0 Hg0; right; exact Hg0|intros; discriminate].
+      split; [intros ? HH; discriminate HH|]. split; [intros g0 Hg0; right; exact Hg0|fin4].
     + cbn [shape_goal wait_start fst snd]. split; [split; [apply wait_start_ok|exact Ht]|].
-      split; [intros g1 Hg1; left; exact Hg1|]. split; [intros ? HH; discriminate HH|intros; discriminate].
+      split; [intros g1 Hg1; left; exact Hg1|]. split; [intros ? HH; discriminate HH|].
+      split; [intros; discriminate|]. intros a0 g0 w0 k0 HH Hin0 Hlt0. inversion HH; subst. cbn [awaits] in Hin0. destruct Hin0 as [<-|[]]. lia.
   - (* PMS1 *) destruct y; inversion Hsh; subst sh; cbn [shape_goal]; triv_target.
   - (* PMS2 *) inversion Hsh; subst sh; cbn [shape_goal]; triv_target.
   - (* PMFp1 *)
     destruct y; inversion Hsh; subst sh; cbn [shape_goal]; try triv_target.
-    split; [exact Hlc|]. split; [intros ? HH; discriminate HH|]. split; [intros g0 Hg0; left; exact Hg0|intros; discriminate].
+    split; [exact Hlc|]. split; [intros ? HH; discriminate HH|]. split; [intros g0 Hg0; left; exact Hg0|fin4].
   - (* PMFp2 *) inversion Hsh; subst sh; cbn [shape_goal]; triv_target.
 Qed.
 
+Lemma typed_reply_mono s s' k q y : (pay_wait_call s' k -> pay_wait_call s k) -> typed_reply s k q y -> typed_reply s' k q y.
+Proof. unfold typed_reply. destruct strict; auto. Qed.
+
+Lemma typed_same s s' k q y : lcs (pl s') = lcs (pl s) -> typed_reply s k q y -> typed_reply s' k q y.
+Proof. intros Hl. apply typed_reply_mono. unfold pay_wait_call. rewrite Hl. auto. Qed.
+Lemma typed_nonread s k q y : is_read q = false -> typed_reply s k q y.
+Proof. unfold typed_reply. destruct q; try discriminate; destruct strict; cbn; auto. Qed.
+Lemma typed_of_ok s k q y : reply_ok q y -> typed_reply s k q y.
+Proof. unfold typed_reply. destruct strict; auto. Qed.
+
 (* ---------- NInv only looks at the node, the lifecycles and the call table ---------- *)
 Lemma NInv_irrel s s' : nd s' = nd s -> lcs (pl s') = lcs (pl s) -> calls s' = calls s -> NInv s -> NInv s'.
-Proof. intros Hn Hl Hc [A B C D E F G]. constructor; rewrite ?Hn, ?Hl, ?Hc; assumption. Qed.
+Proof. intros Hn Hl Hc [A B C D E F G]. constructor; unfold typed_reply, pay_wait_call in *; rewrite ?Hn, ?Hl, ?Hc; assumption. Qed.
 Lemma InvC_irrel c s s' : lcs (pl s') = lcs (pl s) -> calls s' = calls s -> InvC c s -> InvC c s'.
 Proof. intros Hl Hc [A B]. constructor; rewrite ?Hl, ?Hc; assumption. Qed.
 Lemma InvO_irrel s s' : lcs (pl s') = lcs (pl s) -> calls s' = calls s -> InvO s -> InvO s'.
@@ -534,9 +582,18 @@ Proof.
   - exact (ni_wa s HN).
   - exact (ni_ng s HN).
   - intros k cl y Hk Hrep. destruct (Nat.lt_ge_cases k (length (calls s))) as [Hlt|Hge].
-    + rewrite nth_error_app1 in Hk by exact Hlt. exact (ni_r s HN k cl y Hk Hrep).
+    + rewrite nth_error_app1 in Hk by exact Hlt. apply (typed_reply_mono s); [|exact (ni_r s HN k cl y Hk Hrep)].
+      intros (j & z & a0 & g0 & w & Hz & Hp & Hin). destruct (spawn_lcs s h e1 j z Hz) as [(Hz' & _)|(_ & Hp')]; [exists j, z, a0, g0, w; auto|congruence].
     + rewrite nth_error_app2 in Hk by exact Hge. destruct (nth_mk_calls _ _ _ Hk) as (q & _ & ->). discriminate.
 Qed.
+
+Lemma select_poll_not_wait c li base hgt tnow d e sel na kk w : a_pc (select_poll c li base hgt tnow d e sel na) <> PWait kk w.
+Proof.
+  unfold select_poll, go_pay, do_resolve, stay. destruct e as [en|]; [|discriminate].
+  destruct (rdy_q en); destruct (fail_q en); try destruct sel; discriminate.
+Qed.
+Lemma enter_select_not_wait c li base hgt tnow d e sel na kk w : a_pc (enter_select c li base hgt tnow d e sel na) <> PWait kk w.
+Proof. unfold enter_select. destruct (d =? 0); [unfold do_resolve; destruct e; discriminate|apply select_poll_not_wait]. Qed.
 
 (* ---------- EvHtlc ---------- *)
 Lemma NInv_poll c s1 i x d e sel na :
@@ -558,6 +615,7 @@ Proof.
   - intros g Hg. rewrite T2 in Hg. discriminate.
   - intros g Hg. rewrite T3 in Hg. discriminate.
   - intros k a am mf md Hpc. rewrite (T4 _ _ _ _ _ Hpc). lia.
+  - intros a0 g0 w0 k0 HH. exfalso. exact (select_poll_not_wait _ _ _ _ _ _ _ _ _ _ _ HH).
 Qed.
 
 Lemma NInv_htlc c s h : InvC c s -> NInv s -> NInv (fst (step c s (EvHtlc h))).
@@ -612,10 +670,14 @@ Proof.
     + pose proof (enter_select_node_ok c (l_info x) (nd s) (calls s) (length (calls s)) (height s) (now s) d (entry_ (pl s)) sel (next_att (pl s)) eq_refl Hg) as (_ & _ & T3 & _).
       intros g Hg0. rewrite T3 in Hg0. discriminate.
   - destruct sh as [p' new out cancel|r p' new cancel|d]; cbn [adv_of a_pc]; cbn [shape_goal] in Hg.
-    + intros k a am mf md Hpc. exfalso. exact (proj2 (proj2 (proj2 Hg)) _ _ _ _ _ Hpc).
-    + unfold do_resolve. destruct (entry_ (pl s)); cbn [a_pc]; intros k a am mf md Hpc; [exfalso; exact (proj2 (proj2 (proj2 Hg)) _ _ _ _ _ Hpc)|discriminate].
+    + intros k a am mf md Hpc. exfalso. exact (proj1 (proj2 (proj2 (proj2 Hg))) _ _ _ _ _ Hpc).
+    + unfold do_resolve. destruct (entry_ (pl s)); cbn [a_pc]; intros k a am mf md Hpc; [exfalso; exact (proj1 (proj2 (proj2 (proj2 Hg))) _ _ _ _ _ Hpc)|discriminate].
     + pose proof (enter_select_node_ok c (l_info x) (nd s) (calls s) (length (calls s)) (height s) (now s) d (entry_ (pl s)) sel (next_att (pl s)) eq_refl Hg) as (_ & _ & _ & T4).
       intros k a am mf md Hpc. rewrite (T4 _ _ _ _ _ Hpc). lia.
+  - destruct sh as [p' new out cancel|r p' new cancel|d]; cbn [adv_of a_pc]; cbn [shape_goal] in Hg.
+    + exact (proj2 (proj2 (proj2 (proj2 Hg)))).
+    + unfold do_resolve. destruct (entry_ (pl s)); cbn [a_pc]; [exact (proj2 (proj2 (proj2 (proj2 Hg))))|intros ? ? ? ? HH; discriminate HH].
+    + intros a0 g0 w0 k0 HH. exfalso. exact (enter_select_not_wait _ _ _ _ _ _ _ _ _ _ _ HH).
 Qed.
 
 (* ---------- parts and the pay command ---------- *)
@@ -649,7 +711,7 @@ Proof.
     - intros H. apply (ni_wa s HN). destruct H as [(i & st0 & Hi & Hne)|H]; [|right; exact H]. left. cbn [set_parts parts] in Hi.
       destruct (nth_upd_cases _ _ _ _ _ Hi) as [[<- _]|[_ Hi']]; [exists pid, PPend; split; [exact Hp|discriminate]|exists i, st0; auto].
     - exact (ni_ng s HN).
-    - exact (ni_r s HN). }
+    - intros k0 cl0 y0 Hk0 Hr0. exact (typed_same s _ k0 _ y0 eq_refl (ni_r s HN k0 cl0 y0 Hk0 Hr0)). }
   destruct st; [exact HN|apply G; discriminate|apply G; discriminate].
 Qed.
 
@@ -698,7 +760,7 @@ Proof.
   - exact (ni_t3 s HN).
   - intros _. apply (ni_wa s HN). right. cbn [set_parts payrun] in *. lia.
   - exact (ni_ng s HN).
-  - exact (ni_r s HN).
+  - intros k0 cl0 y0 Hk0 Hr0. exact (typed_same s _ k0 _ y0 eq_refl (ni_r s HN k0 cl0 y0 Hk0 Hr0)).
 Qed.
 
 Lemma NInv_payfinish c s cid o : InvU s -> InvC c s -> InvO s -> NInv s -> ev_wf s (EvPayFinish cid o) -> NInv (fst (step c s (EvPayFinish cid o))).
@@ -726,8 +788,8 @@ Proof.
   - exact (ni_ng s HN).
   - intros k cl y Hk Hrep. destruct (nth_set_status _ _ _ _ _ Hk) as (cl0 & H0 & Hr & Hne & Heq).
     destruct (Nat.eq_dec k cid) as [->|Hkc].
-    + rewrite Hcl in H0. inversion H0; subst cl0. rewrite Hr. exact I.
-    + rewrite (Hne Hkc) in *. exact (ni_r s HN k cl0 y H0 Hrep).
+    + rewrite Hcl in H0. inversion H0; subst cl0. rewrite Hr. apply typed_nonread; reflexivity.
+    + rewrite (Hne Hkc) in *. exact (typed_same s _ k _ y eq_refl (ni_r s HN k cl0 y H0 Hrep)).
 Qed.
 
 (* ---------- timers, height, crash ---------- *)
@@ -755,7 +817,10 @@ Proof.
     exact (ni_t3 s HN i j x1 x2 k a am mf md g g0 Hx1 Hx2 Hpc Hst Hg0).
   - exact (ni_wa s HN).
   - exact (ni_ng s HN).
-  - exact (ni_r s HN).
+  - intros k0 cl0 y0 Hk0 Hr0. apply (typed_reply_mono s); [|exact (ni_r s HN k0 cl0 y0 Hk0 Hr0)].
+    intros (j & z & a0 & g0 & w & Hz & Hp & Hin). cbn [pl lcs] in Hz.
+    destruct (Back j z Hz) as (x0 & Hx0 & [H|[H|H]]); [|congruence|congruence].
+    exists j, x0, a0, g0, w. rewrite <- H. auto.
 Qed.
 
 Lemma NInv_crash c s : NInv s -> NInv (fst (step c s EvCrash)).
@@ -849,7 +914,7 @@ Lemma NInv_process_frame c s cid cl n' st' i x :
   nth_error (lcs (pl s)) i = Some x -> In cid (awaits (l_pc x)) ->
   ds n' = ds (nd s) -> parts n' = parts (nd s) -> payrun n' = payrun (nd s) ->
   lc_ok n' (set_status cid st' (calls s)) (l_pc x) ->
-  (forall g, st' <> Replied (YGen g)) -> st' <> Running -> (forall y, st' = Replied y -> reply_ok (c_rpc cl) y) ->
+  (forall g, st' <> Replied (YGen g)) -> st' <> Running -> (forall y, st' = Replied y -> typed_reply s cid (c_rpc cl) y) ->
   NInv {| nd := n'; pl := pl s; calls := set_status cid st' (calls s); now := now s; height := height s |}.
 Proof.
   intros HC HN Hcl Hst Hx Hin Hd Hp Hr Hown Hng Hnr Hry. pose proof HC as [_ Hdis].
@@ -874,8 +939,8 @@ Proof.
   - rewrite Hd. exact (ni_ng s HN).
   - intros k cl' y Hk Hrep. destruct (nth_set_status _ _ _ _ _ Hk) as (cl0 & H0 & Hrr & Hne & Heq).
     destruct (Nat.eq_dec k cid) as [->|Hkc].
-    + rewrite Hcl in H0. inversion H0; subst cl0. rewrite Hrr. apply Hry. rewrite <- Hrep. symmetry. exact (Heq eq_refl).
-    + rewrite (Hne Hkc) in *. exact (ni_r s HN k cl0 y H0 Hrep).
+    + rewrite Hcl in H0. inversion H0; subst cl0. rewrite Hrr. apply (typed_same s); [reflexivity|]. apply Hry. rewrite <- Hrep. symmetry. exact (Heq eq_refl).
+    + rewrite (Hne Hkc) in *. exact (typed_same s _ k _ y eq_refl (ni_r s HN k cl0 y H0 Hrep)).
 Qed.
 
 Lemma NInv_process_write c s cid cl m gg v g' y i x :
@@ -922,8 +987,8 @@ Proof.
   - cbn [set_ds ds]. intros g E. inversion E. exact (Hvg H0).
   - intros k cl' y0 Hk Hrep. destruct (nth_set_status _ _ _ _ _ Hk) as (cl0 & H0 & Hrr & Hne & Heq).
     destruct (Nat.eq_dec k cid) as [->|Hkc].
-    + rewrite Hcl in H0. inversion H0; subst cl0. rewrite Hrr, Hq. exact I.
-    + rewrite (Hne Hkc) in *. exact (ni_r s HN k cl0 y0 H0 Hrep).
+    + rewrite Hcl in H0. inversion H0; subst cl0. rewrite Hrr, Hq. apply typed_nonread; reflexivity.
+    + rewrite (Hne Hkc) in *. exact (typed_same s _ k _ y0 eq_refl (ni_r s HN k cl0 y0 H0 Hrep)).
 Qed.
 
 Lemma st_of_set_same cs cid st cl : nth_error cs cid = Some cl -> st_of (set_status cid st cs) cid = Some st.
@@ -939,16 +1004,39 @@ Proof.
   pose proof (owner_pc_by_rpc c s i x cid cl HC Hx Hin Hcl) as Hob.
   pose proof (ni_lc s HN i x Hx) as Hlc.
   assert (StU : st_of (calls s) cid = Some Unprocessed) by (rewrite (st_of_nth _ _ _ Hcl), Hst; reflexivity).
-  assert (NoF : is_read (c_rpc cl) = true -> f = NoFault).
-  { intros Hr. destruct Hwf as [E|E]; [exact E|]. specialize (E cl Hcl). congruence. }
+  (* an injected error on a read (allowed only in the non-strict level, and never on pay()'s wait_payment): the call holds
+     YErr, which claims nothing; the node is untouched *)
+  assert (RF : is_read (c_rpc cl) = true -> f <> NoFault ->
+               NInv {| nd := n'; pl := pl s; calls := set_status cid match y with Some r => Replied r | None => match c_rpc cl with QPay _ _ _ _ _ => Running | _ => Unprocessed end end (calls s);
+                       now := now s; height := height s |}).
+  { intros Hrd Hnf. rewrite (node_exec_read_fault (nd s) (c_rpc cl) f Hrd Hnf) in Hex. inversion Hex; subst n' y.
+    assert (Hnpw : strict = false /\ ~ pay_wait_call s cid).
+    { destruct Hwf as [E|E]; [congruence|]. destruct (E cl Hcl) as [E1|E1]; [congruence|exact E1]. }
+    apply (NInv_process_frame c s cid cl (nd s) _ i x); auto.
+    - destruct (l_pc x) as [k1|kk w|k1 a g t|k1 a g t|d|k1 a am mf md|k1 a g am mf md|k1 a g|k1 a pr|k1 a|k1 a g|k1 a g| |] eqn:Hp;
+        try (apply (lc_ok_nocall (nd s) (nd s) (calls s)); auto; fail); cbn [awaits] in Hin.
+      + cbn [lc_ok]. intros v Hv. destruct Hin as [<-|[]]. rewrite (st_of_set_same _ _ _ _ Hcl) in Hv. discriminate.
+      + destruct Hlc as (Hw & Htok). split; [|exact Htok].
+        assert (Hc : nth_error (ps_calls (wproj (nd s) (calls s) w)) cid = Some {| c_rpc := c_rpc cl; c_st := Unprocessed |})
+          by (cbn; rewrite Hcl; destruct cl; cbn in *; subst; reflexivity).
+        exact (wait_inv_process_err (wproj (nd s) (calls s) w) w cid (c_rpc cl) (nd s) Hc eq_refl Hw).
+      + (* PAdd1 awaits a write *) exfalso. pose proof (ic_typed c s HC i x Hx) as Hty. rewrite Hp in Hty. destruct Hty as (t & Hty).
+        destruct Hin as [<-|[]]. rewrite (has_call_rpc _ _ _ _ Hty Hcl) in Hrd. discriminate.
+      + (* PPay awaits the pay request *) exfalso. pose proof (ic_typed c s HC i x Hx) as Hty. rewrite Hp in Hty. destruct Hty as (am & mf & md & Hty).
+        destruct Hin as [<-|[]]. rewrite (has_call_rpc _ _ _ _ Hty Hcl) in Hrd. discriminate.
+    - intros g H; discriminate.
+    - discriminate.
+    - intros y0 _. unfold typed_reply. destruct Hnpw as (-> & Hn). intros Hpw. contradiction. }
+  assert (FD : f = NoFault \/ f <> NoFault) by (destruct f; [left; reflexivity|right; discriminate|right; discriminate]).
+  assert (NoF : is_read (c_rpc cl) = true -> f = NoFault -> f = NoFault) by auto.
   destruct (c_rpc cl) eqn:Hq.
   - (* QListState *)
-    rewrite (NoF eq_refl) in Hex. rewrite node_exec_read_nofault in Hex by reflexivity. inversion Hex; subst n' y. cbn in Hs.
+    destruct FD as [->|Hnf]; [|exact (RF eq_refl Hnf)]. rewrite node_exec_read_nofault in Hex by reflexivity. inversion Hex; subst n' y. cbn in Hs.
     apply (NInv_process_frame c s cid cl (nd s) _ i x); auto.
     + rewrite Hs. cbn [lc_ok]. intros v Hv Hfv. rewrite (st_of_set_same _ _ _ _ Hcl) in Hv. inversion Hv; subst v. apply free_all_failed; assumption.
     + intros g H; discriminate.
     + discriminate.
-    + intros y0 H. inversion H; subst. rewrite Hq. cbn. eexists. split; [reflexivity|exact (ni_ng s HN)].
+    + intros y0 H. inversion H; subst. rewrite Hq. apply typed_of_ok. cbn. eexists. split; [reflexivity|exact (ni_ng s HN)].
   - (* QWriteState *)
     assert (Hown : reads_calls (l_pc x) = false \/ exists a am mf md, l_pc x = PAdd1 cid a am mf md).
     { cbn in Hs. destruct v.
@@ -962,7 +1050,7 @@ Proof.
         rewrite Hp in *. cbn [lc_ok] in *. split; [exact (proj1 Hlc)|]. intros g Hg. rewrite (st_of_set_same _ _ _ _ Hcl) in Hg. discriminate.
       * intros g H; discriminate.
       * discriminate.
-      * intros y0 _. rewrite Hq. exact I.
+      * intros y0 _. rewrite Hq. apply typed_nonread; reflexivity.
     + assert (Hy' : exists y0, y = Some y0 /\ (y0 = YGen g' \/ y0 = YErr)) by (destruct Hy as [->| ->]; eauto).
       destruct Hy' as (y0 & -> & Hy0).
       apply (NInv_process_write c s cid cl m gen v g' y0 i x); auto.
@@ -993,9 +1081,9 @@ Proof.
     + apply (lc_ok_nocall (nd s) n' (calls s)); auto.
     + intros g H. inversion H. destruct Hy0; congruence.
     + discriminate.
-    + intros y1 _. rewrite Hq. exact I.
+    + intros y1 _. rewrite Hq. apply typed_nonread; reflexivity.
   - (* QListPend *)
-    rewrite (NoF eq_refl) in Hex. destruct Hob as (kk & w & Hp). rewrite Hp in Hlc. destruct Hlc as (Hw & Htok).
+    destruct FD as [->|Hnf]; [|exact (RF eq_refl Hnf)]. destruct Hob as (kk & w & Hp). rewrite Hp in Hlc. destruct Hlc as (Hw & Htok).
     pose proof Hex as Hex'. rewrite node_exec_read_nofault in Hex' by reflexivity. inversion Hex'; subst n' y.
     assert (Hc : nth_error (ps_calls (wproj (nd s) (calls s) w)) cid = Some {| c_rpc := QListPend; c_st := Unprocessed |})
       by (cbn; rewrite Hcl; destruct cl; cbn in *; subst; reflexivity).
@@ -1004,9 +1092,9 @@ Proof.
     + rewrite Hp. split; [exact HW|exact Htok].
     + intros g H; discriminate.
     + discriminate.
-    + intros y0 H. inversion H; subst. rewrite Hq. cbn. eauto.
+    + intros y0 H. inversion H; subst. rewrite Hq. apply typed_of_ok. cbn. eauto.
   - (* QListDone *)
-    rewrite (NoF eq_refl) in Hex. destruct Hob as (kk & w & Hp). rewrite Hp in Hlc. destruct Hlc as (Hw & Htok).
+    destruct FD as [->|Hnf]; [|exact (RF eq_refl Hnf)]. destruct Hob as (kk & w & Hp). rewrite Hp in Hlc. destruct Hlc as (Hw & Htok).
     pose proof Hex as Hex'. rewrite node_exec_read_nofault in Hex' by reflexivity. inversion Hex'; subst n' y.
     assert (Hc : nth_error (ps_calls (wproj (nd s) (calls s) w)) cid = Some {| c_rpc := QListDone; c_st := Unprocessed |})
       by (cbn; rewrite Hcl; destruct cl; cbn in *; subst; reflexivity).
@@ -1015,9 +1103,9 @@ Proof.
     + rewrite Hp. split; [exact HW|exact Htok].
     + intros g H; discriminate.
     + discriminate.
-    + intros y0 H. inversion H; subst. rewrite Hq. cbn. eauto.
+    + intros y0 H. inversion H; subst. rewrite Hq. apply typed_of_ok. cbn. eauto.
   - (* QWaitPart *)
-    rewrite (NoF eq_refl) in Hex. destruct Hob as (kk & w & Hp). rewrite Hp in Hlc. destruct Hlc as (Hw & Htok).
+    destruct FD as [->|Hnf]; [|exact (RF eq_refl Hnf)]. destruct Hob as (kk & w & Hp). rewrite Hp in Hlc. destruct Hlc as (Hw & Htok).
     pose proof Hex as Hex'. rewrite node_exec_read_nofault in Hex' by reflexivity. inversion Hex' as [[Hn Hy]]. subst n'.
     assert (Hc : nth_error (ps_calls (wproj (nd s) (calls s) w)) cid = Some {| c_rpc := QWaitPart pid; c_st := Unprocessed |})
       by (cbn; rewrite Hcl; destruct cl; cbn in *; subst; reflexivity).
@@ -1027,7 +1115,7 @@ Proof.
     + rewrite Hp. split; [exact HW|exact Htok].
     + intros g H. destruct (nth_error (parts (nd s)) pid) as [[| |]|]; discriminate.
     + destruct (nth_error (parts (nd s)) pid) as [[| |]|]; discriminate.
-    + intros y0 H. rewrite Hq. cbn. destruct (nth_error (parts (nd s)) pid) as [[|p|]|]; inversion H; eauto.
+    + intros y0 H. rewrite Hq. apply typed_of_ok. cbn. destruct (nth_error (parts (nd s)) pid) as [[|p|]|]; inversion H; eauto.
   - (* QPay *)
     cbn in Hs. destruct Hs as (a & g & Hp). rewrite Hp in Hlc. cbn [lc_ok] in Hlc. rewrite StU in Hlc. destruct Hlc as (Ht & (Haf & Hp0) & Hh).
     destruct (node_exec_pay_cases _ _ _ _ _ _ _ _ _ Hex) as [(-> & ->)|(-> & ->)].
@@ -1035,7 +1123,7 @@ Proof.
       * rewrite Hp. cbn [lc_ok]. rewrite (st_of_set_same _ _ _ _ Hcl). auto.
       * intros g0 H; discriminate.
       * discriminate.
-      * intros y0 _. rewrite Hq. exact I.
+      * intros y0 _. rewrite Hq. apply typed_nonread; reflexivity.
     + pose proof HC as [_ Hdis].
       assert (StO : forall k, k <> cid -> st_of (set_status cid Running (calls s)) k = st_of (calls s) k).
       { intros k Hk. unfold st_of. rewrite nth_set_status_other by congruence. reflexivity. }
@@ -1054,7 +1142,7 @@ Proof.
       * exact (ni_ng s HN).
       * intros k cl' y0 Hk Hrep. destruct (nth_set_status _ _ _ _ _ Hk) as (cl0 & H0 & Hrr & Hne & Heq).
         destruct (Nat.eq_dec k cid) as [->|Hkc]; [rewrite (Heq eq_refl) in Hrep; discriminate|].
-        rewrite (Hne Hkc) in *. exact (ni_r s HN k cl0 y0 H0 Hrep).
+        rewrite (Hne Hkc) in *. exact (typed_same s _ k _ y0 eq_refl (ni_r s HN k cl0 y0 H0 Hrep)).
 Qed.
 
 (* ---------- every step preserves NInv ---------- *)
@@ -1073,3 +1161,5 @@ Proof.
   - apply (NInv_irrel s); auto.
   - apply NInv_crash; assumption.
 Qed.
+
+End Strict.
